@@ -182,6 +182,23 @@ const (
 type respSpec struct {
 	Body  string `json:"body"`
 	Fault int    `json:"fault,omitempty"`
+	// how the body arrives, as with a real connection: Chunk > 0 = at most Chunk bytes per Read call;
+	// Announce = the response's ContentLength field carries the body's length (else -1, unknown)
+	Chunk    int  `json:"chunk,omitempty"`
+	Announce bool `json:"announce,omitempty"`
+}
+
+// chunkReader hands out at most n bytes per Read (n <= 0: as many as fit)
+type chunkReader struct {
+	r io.Reader
+	n int
+}
+
+func (c *chunkReader) Read(p []byte) (int, error) {
+	if c.n > 0 && len(p) > c.n {
+		p = p[:c.n]
+	}
+	return c.r.Read(p)
 }
 
 type apiCase struct {
@@ -367,12 +384,16 @@ func (s *stubRT) RoundTrip(req *http.Request) (*http.Response, error) {
 		return nil, errTransport
 	}
 	// like net/http's transport, the response body can only be read while the request context is alive
-	var body io.ReadCloser = io.NopCloser(&ctxReader{ctx: req.Context(), r: strings.NewReader(spec.Body)})
+	var body io.ReadCloser = io.NopCloser(&ctxReader{ctx: req.Context(), r: &chunkReader{r: strings.NewReader(spec.Body), n: spec.Chunk}})
 	if spec.Fault == fBodyRead {
 		body = io.NopCloser(&failingReader{data: []byte(spec.Body)})
 	}
+	contentLength := int64(-1)
+	if spec.Announce {
+		contentLength = int64(len(spec.Body))
+	}
 	return &http.Response{Status: "200 OK", StatusCode: 200, Proto: "HTTP/1.1", ProtoMajor: 1, ProtoMinor: 1,
-		Header: http.Header{"Content-Type": {"application/json"}}, Body: body, ContentLength: -1, Request: req}, nil
+		Header: http.Header{"Content-Type": {"application/json"}}, Body: body, ContentLength: contentLength, Request: req}, nil
 }
 
 // ctxReader fails with the context's error once the request context is done (what the real
@@ -1240,6 +1261,8 @@ func genCase(t *rapid.T) *apiCase {
 	for i := 0; i < nEval; i++ {
 		r := respSpec{Body: rapid.SampledFrom(bodies).Draw(t, "respBody")}
 		r.Fault = rapid.SampledFrom([]int{fNone, fNone, fNone, fNone, fTransport, fBodyRead}).Draw(t, "fault")
+		r.Chunk = rapid.SampledFrom([]int{0, 0, 1, 3, 16}).Draw(t, "chunk")
+		r.Announce = rapid.Bool().Draw(t, "announce")
 		c.Resp = append(c.Resp, r)
 	}
 	return c
@@ -1294,7 +1317,7 @@ func propTemplate(t *rapid.T) {
 
 // ---------------------------------------------------------------- regression table (runs first)
 
-var okResp = []respSpec{{Body: `{"id":7,"name":"n","tags":["a"]}`}}
+var okResp = []respSpec{{Body: `{"id":7,"name":"n","tags":["a"]}`, Chunk: 5, Announce: true}}
 
 var regressions = []*apiCase{
 	// DESIGN §4 #20: every Put*/Patch* constructor passed http.MethodPost
